@@ -365,6 +365,7 @@ func checkC08(c *core.Ctx, r *core.Report) {
 		"(8) LENPREFIX — in the metrics writer every length prefix written to a buffer is len() of exactly the value written next; " +
 		"(9) COUNT16 — every 16-bit narrowing of a length or count in the tags tree encoder lies where the value is known to be at most 65535; " +
 		"(10) REDIRECT — SearchUnrotatedMetricsBlock decides the re-direction of a since-rotated block to the on-disk search before it can return for any reason concerning the new in-memory block; " +
+		"(11) PAIR — every datapoint put into a series of a block (ingest and WAL replay) is followed by MBlockSummary.UpdateTimeRange on every path that goes on successfully; " +
 		"(3) LIVE — a scratch bytes.Buffer that is declared outside a loop, filled inside it and Reset on some path of the iteration is Reset on every path to the next iteration (leftover bytes of one series would be decoded as part of the next)."
 	r.NotCovered = "TSID hashing and collisions, tags-tree contents, rotation/restart behaviour, the series-file layout, value equality in general"
 
@@ -372,6 +373,7 @@ func checkC08(c *core.Ctx, r *core.Report) {
 	c08LenPrefix(c, r)
 	c08Count16(c, r)
 	c08Redirect(c, r, lockAnalysis(c))
+	c08DatapointCounted(c, r)
 	checkWalAfterBlockNumber(c, r, newSummaries(c))
 
 	writeBits := c.Obj(pkgCompress, "bitWriter.writeBits")
@@ -593,7 +595,11 @@ func checkC08(c *core.Ctx, r *core.Report) {
 	r.Check(wOK && rOK, "TABLE", "first-delta-width", c.Pos(compressTs.Pos()), fmt.Sprintf("both sides use %d bits", fd), "the first-delta field is not written and read with the same width")
 	// reader maps 0 significant bits to 64
 	mapped := false
-	for _, b := range decompVal.Blocks {
+	var decompBlocks []*ssa.BasicBlock
+	for _, f := range decompValCone {
+		decompBlocks = append(decompBlocks, f.Blocks...)
+	}
+	for _, b := range decompBlocks {
 		ifi, ok := core.LastIf(b)
 		if !ok {
 			continue
